@@ -9,19 +9,24 @@ Arguments rev : simpl never.
 Arguments flat : simpl never.
 
 (* ---------- the fragment: top-level text blocks, Bm and Em; no user macros, no open #if/#de, no filter region, no blocks ---------- *)
+Section WithK.
+(* header counters and the header list collected in pass 1: no handler of this section touches them *)
+Variable K : tocinfo * list lox.
 Record Side (s : st) : Prop := {
   sd_mk : markup_ok (mtags s); sd_inl : inl s = false; sd_asis : asis s = false;
   sd_if : ifdepth s = 0%nat; sd_udef : udef s = None; sd_um : umacros s = []; sd_bf : bf s = None;
   sd_dt : dtags s = []; sd_vs : verse s = false; sd_fmt : fmt s = FX; sd_mode : mode s = 0%nat;
-  sd_np : panicked s = None
+  sd_np : panicked s = None; sd_iv : ivars s = []; sd_pa : params s = [(R "xhtml-index", R "full"); (R "lang", R "en")];
+  sd_toc : toc s = fst K; sd_lox : lox_toc s = snd K
 }.
 Lemma Side_eqf a b : a ~= b -> Side b -> Side a.
-Proof. intros H [A1 A3 A4 A5 A6 A7 A8 A9 A10 A11 A12 A13].
+Proof. intros H [A1 A3 A4 A5 A6 A7 A8 A9 A10 A11 A12 A13 A14 A15 A16 A17].
   split; [rewrite (eqf_get mtags _ _ (fun _ => eq_refl) H)|rewrite (eqf_get inl _ _ (fun _ => eq_refl) H)
          |rewrite (eqf_get asis _ _ (fun _ => eq_refl) H)|rewrite (eqf_get ifdepth _ _ (fun _ => eq_refl) H)
          |rewrite (eqf_get udef _ _ (fun _ => eq_refl) H)|rewrite (eqf_get umacros _ _ (fun _ => eq_refl) H)
          |rewrite (eqf_get bf _ _ (fun _ => eq_refl) H)|rewrite (eqf_get dtags _ _ (fun _ => eq_refl) H)
-         |rewrite (eqf_get verse _ _ (fun _ => eq_refl) H)|rewrite (fmt_eqf _ _ H)|rewrite (eqf_get mode _ _ (fun _ => eq_refl) H)|rewrite (eqf_get panicked _ _ (fun _ => eq_refl) H)]; assumption. Qed.
+         |rewrite (eqf_get verse _ _ (fun _ => eq_refl) H)|rewrite (fmt_eqf _ _ H)|rewrite (eqf_get mode _ _ (fun _ => eq_refl) H)|rewrite (eqf_get panicked _ _ (fun _ => eq_refl) H)|rewrite (eqf_get ivars _ _ (fun _ => eq_refl) H)|rewrite (eqf_get params _ _ (fun _ => eq_refl) H)
+         |rewrite (eqf_get toc _ _ (fun _ => eq_refl) H)|rewrite (eqf_get lox_toc _ _ (fun _ => eq_refl) H)]; assumption. Qed.
 Definition is_bd (sc : scope) : Prop := sc_macro sc = R "Bd".
 Definition P (p : bool) (s : st) : Prop := Side s /\ Forall is_bd (sblock s) /\ process s = p /\ (p = true -> Inv s).
 Definition in_frag (b : block) : Prop :=
@@ -151,7 +156,7 @@ Proof. intro Hc. unfold push_block, mk_scope. destruct (cloc s) as [[[l n] f]|];
 Lemma Forall_pop {A} (Q : A -> Prop) l : Forall Q l -> Forall Q (pop l).
 Proof. unfold pop. induction 1 as [|x l Hx Hl IH]; [constructor|]. destruct l as [|y r]; [constructor|]. change (removelast (x :: y :: r)) with (x :: removelast (y :: r)). constructor; assumption. Qed.
 Lemma Side_set_sblock f s : Side s -> Side (s <| sblock ::= f |>).
-Proof. intros [A1 A3 A4 A5 A6 A7 A8 A9 A10 A11 A12 A13]. split; assumption. Qed.
+Proof. intros [A1 A3 A4 A5 A6 A7 A8 A9 A10 A11 A12 A13 A14 A15 A16 A17]. split; assumption. Qed.
 
 Lemma macro_bd_P p s : P p s -> has_cur s = true -> P p (macro_bd s).
 Proof. intros HP Hc. pose proof HP as (HS & Hsb & Hpr & HI). unfold macro_bd. rewrite (scope_verse_bd _ Hsb).
@@ -279,7 +284,7 @@ Proof. intro Hf. unfold end_par. change (par (s <| sblock ::= pop |>)) with (par
   change (fmt (s <| wout ::= cons (flat (buf s)) |> <| buf := [] |> <| par := false |>)) with (fmt s). rewrite Hf.
   unfold X.end_paragraph, w. cbn. destruct s; reflexivity. Qed.
 
-Lemma macro_ed_P p s : P p s -> P p (macro_ed s) /\ (p = true -> sblock (macro_ed s) = pop (sblock s) /\ (par s = false -> par (macro_ed s) = false)).
+Lemma macro_ed_P p s : P p s -> P p (macro_ed s) /\ (p = true -> sblock (macro_ed s) = pop (sblock s) /\ (par s = false -> par (macro_ed s) = false) /\ (sinline s = [] -> sinline (macro_ed s) = []) /\ has_cur (macro_ed s) = has_cur s).
 Proof. intros HP. pose proof HP as (HS & Hsb & Hpr & HI). unfold macro_ed. destruct (closer_fuel_S s) as [f ->]. rewrite closers_ed, closers_cub.
   unfold ed_body. rewrite (scope_verse_bd _ Hsb), Hpr. destruct p; cbn [negb]; [|split; [exact HP|discriminate]].
   pose proof (parse_opts_eqd specOptEd (args s) s) as E1. destruct (parse_opts specOptEd (args s) s) as [o s1]. cbn [snd] in E1.
@@ -290,7 +295,9 @@ Proof. intros HP. pose proof HP as (HS & Hsb & Hpr & HI). unfold macro_ed. destr
   assert (Hsb2 : sblock s2 = sblock s) by (apply (eqd_get sblock _ _ (fun _ => eq_refl) E2)).
   destruct (top (sblock s2)) as [sc|] eqn:Etop.
   2:{ split; [apply (P_eqd _ _ _ (err_eqd _ _) HP2)|]. intros _. split; [rewrite (eqd_get sblock _ _ (fun _ => eq_refl) (err_eqd _ s2)), <- Hsb2, (top_none _ Etop); reflexivity|].
-      rewrite (eqd_get par _ _ (fun _ => eq_refl) (err_eqd _ s2)), (eqd_get par _ _ (fun _ => eq_refl) E2). exact (fun H => H). }
+      split; [rewrite (eqd_get par _ _ (fun _ => eq_refl) (err_eqd _ s2)), (eqd_get par _ _ (fun _ => eq_refl) E2); exact (fun H => H)|].
+      split; [rewrite (eqd_get sinline _ _ (fun _ => eq_refl) (err_eqd _ s2)), (eqd_get sinline _ _ (fun _ => eq_refl) E2); exact (fun H => H)|].
+      rewrite (eqd_get has_cur _ _ (fun _ => eq_refl) (err_eqd _ s2)). apply (eqd_get has_cur _ _ (fun _ => eq_refl) E2). }
   set (s3 := match opt "t" o with Some t => _ | None => _ end).
   assert (E3 : s3 ~~ s2).
   { unfold s3. destruct (opt "t" o) as [t|].
@@ -318,6 +325,7 @@ Proof. intros HP. pose proof HP as (HS & Hsb & Hpr & HI). unfold macro_ed. destr
       assert (F3 : s3' ~= s) by (unfold s3'; eapply eqf_trans; [apply set_args_eqf|]; eapply eqf_trans; [apply set_quiet_eqf|]; eapply eqf_trans; [exact Fem|exact F2]).
       rewrite IH; [apply (eqf_get sblock _ _ (fun _ => eq_refl) F3)|rewrite (fmt_eqf _ _ F3); exact Hf|rewrite (mtags_eqf _ _ F3); exact Hm]. }
     set (sx := s3 <| args := [] |>). change (sblock s3) with (sblock sx). apply G; [exact (sd_fmt _ (proj1 HP3))|exact (sd_mk _ (proj1 HP3))]. }
+  assert (Hc4 : has_cur (close_unclosed_inline s3) = has_cur s3) by (apply (eqf_get has_cur _ _ (fun _ => eq_refl)), close_unclosed_inline_eqf; [exact (sd_fmt _ (proj1 HP3))|exact (sd_mk _ (proj1 HP3))]).
   set (s4 := close_unclosed_inline s3) in *. clearbody s4.
   rewrite (cub_bd _ _ s4 (proj1 (proj2 HP4))).
   rewrite (end_par_pop_comm s4 (sd_fmt _ (proj1 HP4))).
@@ -334,7 +342,9 @@ Proof. intros HP. pose proof HP as (HS & Hsb & Hpr & HI). unfold macro_ed. destr
   destruct Hx as [x [Ex Hx]]. rewrite Ex.
   assert (F8 : w x s7 <| ws := false |> ~= s7) by (eapply eqf_trans; [apply set_ws_eqf|apply w_eqf]).
   split; [|intros _; split; [rewrite (eqf_get sblock _ _ (fun _ => eq_refl) F8); unfold s7; cbn; rewrite (eqf_get sblock _ _ (fun _ => eq_refl) F6), Hsb4, Hsb3, Hsb2; reflexivity|
-    intros _; change (par (w x s7 <| ws := false |>)) with (par (w x s7)); rewrite par_w; exact Hp6]].
+    split; [intros _; change (par (w x s7 <| ws := false |>)) with (par (w x s7)); rewrite par_w; exact Hp6|
+    split; [intros _; change (sinline (w x s7 <| ws := false |>)) with (let '(_, _, _, (_, _, si, _)) := view (w x s7) in si); rewrite view_w; exact Hsi6|
+    rewrite (eqf_get has_cur _ _ (fun _ => eq_refl) F8); change (has_cur s7) with (has_cur s6); rewrite (eqf_get has_cur _ _ (fun _ => eq_refl) F6), Hc4, (eqd_get has_cur _ _ (fun _ => eq_refl) E3); apply (eqd_get has_cur _ _ (fun _ => eq_refl) E2)]]]].
   split; [apply (Side_eqf _ _ F8 HS7)|].
   split; [rewrite (eqf_get sblock _ _ (fun _ => eq_refl) F8); apply Forall_pop; exact Hsb6|].
   split; [rewrite (eqf_get process _ _ (fun _ => eq_refl) F8); exact Hpr6|].
@@ -401,7 +411,7 @@ Proof. intros HP Hc. pose proof HP as (HS & Hsb & Hpr & HI). unfold macro_p. rew
 Qed.
 
 Lemma Side_set_regs b s : Side s -> Side (set_regs b s).
-Proof. intros [A1 A3 A4 A5 A6 A7 A8 A9 A10 A11 A12 A13]. destruct b; split; assumption. Qed.
+Proof. intros [A1 A3 A4 A5 A6 A7 A8 A9 A10 A11 A12 A13 A14 A15 A16 A17]. destruct b; split; assumption. Qed.
 Lemma P_set_regs p b s : P p s -> P p (set_regs b s) /\ has_cur (set_regs b s) = true.
 Proof. intros (HS & Hsb & Hpr & HI). split; [|destruct b; reflexivity].
   split; [apply Side_set_regs; exact HS|]. split; [destruct b; exact Hsb|]. split; [destruct b; exact Hpr|].
@@ -419,7 +429,7 @@ Proof. intros Hb HP. unfold step. cbv zeta.
   set (s0 := set_regs b s) in *.
   pose proof HP0 as (HS & Hsb & Hpr & HI). pose proof HS as HS0. pose proof Hsb as Hsb0. pose proof Hpr as Hpr0. pose proof HI as HI0.
   assert (F0 : s0 ~= s0) by apply eqf_refl.
-  destruct HS0 as [A1 A3 A4 A5 A6 A7 A8 A9 A10 A11 A12 A13].
+  destruct HS0 as [A1 A3 A4 A5 A6 A7 A8 A9 A10 A11 A12 A13 A14 A15 A16 A17].
   rewrite A5, A6. cbn [Nat.ltb Nat.leb].
   assert (Hv : par s0 = false -> verse s0 = false /\ scope_verse s0 = false) by (intros _; split; [exact A10|apply scope_verse_bd; exact Hsb0]).
   destruct b as [n a l|t l].
@@ -468,10 +478,11 @@ Lemma P_same p a b : a ~= b -> out a = out b -> view a = view b -> buf a = buf b
 Proof. intros F Ho Hv Hb (HS & Hsb & Hpr & HI). split; [apply (Side_eqf _ _ F HS)|]. split; [rewrite (eqf_get sblock _ _ (fun _ => eq_refl) F); exact Hsb|].
   split; [rewrite (eqf_get process _ _ (fun _ => eq_refl) F); exact Hpr|]. intro Hp. apply (Inv_regs b); [exact Ho|exact Hv|exact Hb|apply (eqf_get format _ _ (fun _ => eq_refl) F)|exact (HI Hp)]. Qed.
 
-Lemma close_block_loop_P cur : forall f s, P true s -> par s = false -> (List.length (sblock s) <= f)%nat ->
-  P true (close_block_loop f cur s) /\ par (close_block_loop f cur s) = false /\ (List.length (sblock s) < f -> sblock (close_block_loop f cur s) = [])%nat.
-Proof. induction f as [|f IH]; intros s HP Hp Hl; cbn [close_block_loop]; [split; [exact HP|split; [exact Hp|lia]]|].
-  destruct (top (sblock s)) as [sc|] eqn:Etop; [|split; [exact HP|split; [exact Hp|intros _; apply top_none; exact Etop]]].
+Lemma close_block_loop_P cur : forall f s, P true s -> (List.length (sblock s) <= f)%nat ->
+  P true (close_block_loop f cur s) /\ (par s = false -> par (close_block_loop f cur s) = false) /\
+  (sinline s = [] -> sinline (close_block_loop f cur s) = []) /\ has_cur (close_block_loop f cur s) = has_cur s /\ (List.length (sblock s) < f -> sblock (close_block_loop f cur s) = [])%nat.
+Proof. induction f as [|f IH]; intros s HP Hl; cbn [close_block_loop]; [split; [exact HP|split; [exact (fun H => H)|split; [exact (fun H => H)|split; [reflexivity|lia]]]]|].
+  destruct (top (sblock s)) as [sc|] eqn:Etop; [|split; [exact HP|split; [exact (fun H => H)|split; [exact (fun H => H)|split; [reflexivity|intros _; apply top_none; exact Etop]]]]].
   assert (Hbd : is_bd sc) by (destruct HP as (_ & Hsb & _); rewrite Forall_forall in Hsb; apply Hsb, (top_in _ _ Etop)).
   unfold is_bd in Hbd. rewrite Hbd. change (str_eqb (R "Bd") (R "Bl") || str_eqb (R "Bd") (R "It")) with false. cbv iota.
   set (s2 := warn_unclosed sc (s <| macro := cur |>) <| macro := R "Ed" |> <| args := tag_args (sc_tag sc) |>).
@@ -480,26 +491,32 @@ Proof. induction f as [|f IH]; intros s HP Hp Hl; cbn [close_block_loop]; [split
   { apply (P_same true _ (warn_unclosed sc (s <| macro := cur |>))); [unfold s2q, s2; destruct (warn_unclosed sc (s <| macro := cur |>)); reflexivity|reflexivity|reflexivity|reflexivity|].
     unfold warn_unclosed. apply (P_eqd _ _ _ (err_eqd _ _)). apply (P_same true _ s); [destruct s; reflexivity|reflexivity|reflexivity|reflexivity|exact HP]. }
   assert (Hsb2q : sblock s2q = sblock s) by (unfold s2q, s2, warn_unclosed; cbn; rewrite (eqd_get sblock _ _ (fun _ => eq_refl) (err_eqd _ _)); reflexivity).
-  assert (Hp2q : par s2q = false) by (unfold s2q, s2, warn_unclosed; cbn; rewrite (eqd_get par _ _ (fun _ => eq_refl) (err_eqd _ _)); exact Hp).
-  destruct (macro_ed_P true s2q HP2q) as [HPe He]. destruct (He eq_refl) as [Hpop Hpar]. specialize (Hpar Hp2q).
+  assert (Hp2q : par s2q = par s) by (unfold s2q, s2, warn_unclosed; cbn; rewrite (eqd_get par _ _ (fun _ => eq_refl) (err_eqd _ _)); reflexivity).
+  assert (Hsi2q : sinline s2q = sinline s) by (unfold s2q, s2, warn_unclosed; cbn; rewrite (eqd_get sinline _ _ (fun _ => eq_refl) (err_eqd _ _)); reflexivity).
+  assert (Hhc2q : has_cur s2q = has_cur s) by (unfold s2q, s2, warn_unclosed; cbn; rewrite (eqd_get has_cur _ _ (fun _ => eq_refl) (err_eqd _ _)); reflexivity).
+  destruct (macro_ed_P true s2q HP2q) as [HPe He]. destruct (He eq_refl) as (Hpop & Hpar & Hsin & Hhc).
   set (s3 := macro_ed s2q <| quiet := quiet s2 |> <| args := [] |>).
   assert (HP3 : P true s3) by (apply (P_same true _ (macro_ed s2q)); [unfold s3; destruct (macro_ed s2q); reflexivity|reflexivity|reflexivity|reflexivity|exact HPe]).
   assert (Hsb3 : sblock s3 = pop (sblock s)) by (unfold s3; cbn; rewrite Hpop, Hsb2q; reflexivity).
-  assert (Hp3 : par s3 = false) by exact Hpar.
   assert (Hl3 : (List.length (sblock s3) <= f)%nat) by (rewrite Hsb3, pop_length; lia).
-  destruct (IH s3 HP3 Hp3 Hl3) as (H1 & H2 & H3). split; [exact H1|]. split; [exact H2|]. intro Hlt. apply H3. rewrite Hsb3, pop_length.
+  destruct (IH s3 HP3 Hl3) as (H1 & H2 & H2' & H2h & H3). split; [exact H1|].
+  split; [intro Hp; apply H2; apply Hpar; rewrite Hp2q; exact Hp|].
+  split; [intro Hsi; apply H2'; apply Hsin; rewrite Hsi2q; exact Hsi|].
+  split; [rewrite H2h; unfold s3; cbn; rewrite Hhc; exact Hhc2q|].
+  intro Hlt. apply H3. rewrite Hsb3, pop_length.
   assert (List.length (sblock s) <> 0)%nat by (destruct (sblock s); [discriminate|cbn; lia]). lia.
 Qed.
 
-Lemma close_unclosed_block_P s : P true s -> par s = false ->
-  P true (close_unclosed_block s) /\ par (close_unclosed_block s) = false /\ sblock (close_unclosed_block s) = [].
-Proof. intros HP Hp. unfold close_unclosed_block. destruct (sblock s) as [|sc l] eqn:E; [split; [exact HP|split; [exact Hp|exact E]]|].
+Lemma close_unclosed_block_P s : P true s ->
+  P true (close_unclosed_block s) /\ (par s = false -> par (close_unclosed_block s) = false) /\
+  (sinline s = [] -> sinline (close_unclosed_block s) = []) /\ has_cur (close_unclosed_block s) = has_cur s /\ sblock (close_unclosed_block s) = [].
+Proof. intros HP. unfold close_unclosed_block. destruct (sblock s) as [|sc l] eqn:E; [split; [exact HP|split; [exact (fun H => H)|split; [exact (fun H => H)|split; [reflexivity|exact E]]]]|].
   set (s0 := s <| args := [] |>).
   assert (HP0 : P true s0) by (apply (P_same true _ s); [destruct s; reflexivity|reflexivity|reflexivity|reflexivity|exact HP]).
   assert (Hl : (List.length (sblock s0) <= S (S (List.length (sc :: l))))%nat) by (change (sblock s0) with (sblock s); rewrite E; lia).
-  destruct (close_block_loop_P (macro s) (S (S (List.length (sc :: l)))) s0 HP0 Hp Hl) as (H1 & H2 & H3).
+  destruct (close_block_loop_P (macro s) (S (S (List.length (sc :: l)))) s0 HP0 Hl) as (H1 & H2 & H2' & H2h & H3).
   set (r := close_block_loop (S (S (List.length (sc :: l)))) (macro s) s0) in *.
-  split; [apply (P_same true _ r); [destruct r; reflexivity|reflexivity|reflexivity|reflexivity|exact H1]|]. split; [exact H2|].
+  split; [apply (P_same true _ r); [destruct r; reflexivity|reflexivity|reflexivity|reflexivity|exact H1]|]. split; [exact H2|]. split; [exact H2'|]. split; [exact H2h|].
   change (sblock (r <| macro := macro s |> <| args := args s |>)) with (sblock r). apply H3. change (sblock s0) with (sblock s). rewrite E. lia.
 Qed.
 
@@ -510,12 +527,12 @@ Lemma eof_sweep_P s : P true s -> let s' := eof_sweep s in Side s' /\ Inv s' /\ 
 Proof. intros HP. cbv zeta. unfold eof_sweep.
   set (s3 := s <| has_cur := false |> <| macro := R "End Of File" |>).
   assert (HP3 : P true s3).
-  { destruct HP as ([A1 A3 A4 A5 A6 A7 A8 A9 A10 A11 A12 A13] & Hsb & Hpr & HI). split; [split; assumption|]. split; [exact Hsb|]. split; [exact Hpr|].
+  { destruct HP as ([A1 A3 A4 A5 A6 A7 A8 A9 A10 A11 A12 A13 A14 A15 A16 A17] & Hsb & Hpr & HI). split; [split; assumption|]. split; [exact Hsb|]. split; [exact Hpr|].
     intro Hp. apply (Inv_regs s); try reflexivity. exact (HI Hp). }
   destruct (close_unclosed_inline_P s3 HP3) as [HPa Hsia].
   destruct (end_par_P _ HPa Hsia) as (HPb & Hpb & _). cbv zeta in HPb, Hpb.
   set (sb := end_par PNormal (close_unclosed_inline s3)) in *. clearbody sb.
-  destruct (close_unclosed_block_P sb HPb Hpb) as (HPc & Hpc & Hsbc).
+  destruct (close_unclosed_block_P sb HPb) as (HPc & Hpc' & _ & _ & Hsbc). pose proof (Hpc' Hpb) as Hpc.
   set (sc := close_unclosed_block sb) in *. clearbody sc.
   destruct HPc as (HSc & _ & _ & HIc). specialize (HIc eq_refl).
   set (s5 := fold_left (fun a x => warn_unclosed x a) (rev (sif sc)) sc).
@@ -526,74 +543,4 @@ Proof. intros HP. cbv zeta. unfold eof_sweep.
   split; [rewrite (eqd_get par _ _ (fun _ => eq_refl) E5); exact Hpc|rewrite (eqd_get sblock _ _ (fun _ => eq_refl) E5); exact Hsbc].
 Qed.
 
-(* ---------- the two passes ---------- *)
-Lemma P_start wd main : P false (start_st (R "xhtml") 0 wd main).
-Proof. split; [split; try reflexivity; exact markup_ok_nil|]. split; [constructor|]. split; [reflexivity|discriminate]. Qed.
-
-Lemma P_reset s : Side s -> P true (exp_reset (reset s)).
-Proof. intro HS.
-  assert (Hf : fmt (reset s) = FX) by (unfold fmt; change (format (reset s)) with (format s); exact (sd_fmt _ HS)).
-  assert (Hm : mode (reset s) = 0%nat) by exact (sd_mode _ HS).
-  unfold exp_reset. rewrite Hf, Hm.
-  split; [split; try reflexivity; [exact (sd_mk _ HS)|exact (sd_dt _ HS)|exact Hf|exact Hm]|]. split; [constructor|]. split; [reflexivity|]. intros _.
-  split; [reflexivity|reflexivity|exact Hf]. Qed.
-
-Theorem C02_blocks_balanced fuel wd main bs : Forall in_frag bs ->
-  let s := snd (compile (S fuel) (R "xhtml") 0 wd main bs) in
-  panicked s = None /\
-  run (flat (wout s)) (Txt, []) = (Txt, []) /\ In (curfile s, flat (wout s)) (files s).
-Proof. intros Hbs. unfold compile.
-  pose proof (frag_invariant false fuel bs (start_ctl wd main, start_st (R "xhtml") 0 wd main) Hbs (P_start wd main)) as H1.
-  destruct (run_blocks (S fuel) bs (start_ctl wd main, start_st (R "xhtml") 0 wd main)) as [c1 s1]. cbn [snd] in H1.
-  rewrite (sd_np _ (proj1 H1)).
-  pose proof (frag_invariant true fuel bs (set_budget 0 false c1, exp_reset (reset s1)) Hbs (P_reset s1 (proj1 H1))) as H2.
-  destruct (run_blocks (S fuel) bs (set_budget 0 false c1, exp_reset (reset s1))) as [c2 s2]. cbn [snd] in H2.
-  rewrite (sd_np _ (proj1 H2)).
-  destruct (eof_sweep_P s2 H2) as (HS & HI & Hp & Hsb). cbv zeta in HS, HI, Hp, Hsb. set (s7 := eof_sweep s2) in *. clearbody s7.
-  assert (Epost : exp_post s7 = s7) by (unfold exp_post; rewrite (sd_fmt _ HS), (sd_mode _ HS); reflexivity). rewrite Epost.
-  cbn [snd]. change (wout (s7 <| files ::= fun l => l ++ [(curfile s7, flat (wout s7))] |>)) with (wout s7).
-  split; [exact (sd_np _ HS)|]. split.
-  - destruct HI as [A B C]. unfold out in A. rewrite (B Hp), flat_nil, app_nil_r, (elems_closed _ Hsb Hp) in A. exact A.
-  - change (files (s7 <| files ::= fun l => l ++ [(curfile s7, flat (wout s7))] |>)) with (files s7 ++ [(curfile s7, flat (wout s7))]).
-    apply in_or_app. right. left. reflexivity.
-Qed.
-Print Assumptions C02_blocks_balanced.
-
-
-(* non-vacuity and agreement with computation on a concrete document *)
-Definition ex_src := runes "a & b
-.Bd
-.Bm
-c <d>
-.Bd -id x
-nested
-.Em !
-.P A <title> Bm with Em markup
-new paragraph
-.Sm strong <t> .
-.Ed
-e
-.Bm
-left open
-".
-Definition ex_world := mkWorld [] [(R "m.frundis", ex_src)] [] false [].
-Example blocks_example :
-  Forall in_frag (fst (parse ex_src)) /\
-  (let s := compile_source (R "xhtml") 0 ex_world (R "m.frundis") in
-   panicked s = None /\ flat (wout s) = runes "<p>a &amp; b</p>
-<div>
-<p><em>c &lt;d&gt;</em></p>
-<div id=""x"">
-<p>nested</p>
-<p class=""paragraph""><strong class=""paragraph"">A &lt;title&gt; <em>with</em>markup</strong>
-new paragraph
-<em>strong &lt;t&gt;</em>.</p>
-</div>
-<p>e
-<em>left open</em></p>
-</div>
-").
-Proof. split; [|vm_compute; split; reflexivity].
-  vm_compute.
-  repeat (apply Forall_cons; [first [exact I | left; reflexivity | right; left; reflexivity | right; right; left; reflexivity | right; right; right; left; reflexivity
-    | right; right; right; right; left; reflexivity | right; right; right; right; right; reflexivity]|]). apply Forall_nil. Qed.
+End WithK.
